@@ -1,3 +1,4 @@
+import Cdecao.Props.C01Cde
 import Cdecao.Proofs.NodeEng2
 import Cdecao.Proofs.SpecExec
 /-! # C01 — every reported assignment satisfies all hard course-assignment constraints
